@@ -353,7 +353,15 @@ def monitors(props, start_snap, start_dump, oplist, leaf, serial_cache):
             pfx = ser0 + 'new-consumer-race:' if new_consumer_race(start_dump, oplist) else ser0
             holders = {x[1] for x in d['allocs']}
             if holders - set(d['consumers']):
-                sig = pfx + 'not-serializable:allocations-without-consumer'
+                # who removed the consumer record?  the listed finding is: the request that CREATED the record fails and
+                # removes it in its clean-up although another request has adopted it meanwhile.  A clean-up by a request
+                # that did not create the record is a different defect and must not hide behind that finding.
+                creators = {i for (i, m, st) in leaf['trace'] if ('INSERT', 'consumers') in [tuple(x) for x in st]}
+                removers = {i for (i, m, st) in leaf['trace'] if ('DELETE', 'consumers') in [tuple(x) for x in st]
+                            and not ok(sts[i])}
+                who = 'deleted-by-creator' if removers and removers <= creators else \
+                    ('deleted-by-non-creator' if removers else 'deleted-by-successful-request')
+                sig = pfx + 'not-serializable:allocations-without-consumer:' + who
             elif set(d['consumers']) - holders:
                 sig = pfx + 'not-serializable:consumer-without-allocations'
             elif pfx != ser0:
